@@ -250,6 +250,18 @@ func c16Compile(ctx *core.Ctx, bin string, progs []*dsl.Program) (int, int) {
 			sel = append(sel, p)
 		}
 	}
+	// degenerate but legal texts: no packet at all (a generator's file set may then hold files of zero length - which
+	// are members of the set like any other), a root packet without fields
+	{
+		meta := func() []*dsl.MetaBlock {
+			return []*dsl.MetaBlock{{Name: "Dict", Entries: []*dsl.MetaEntry{{Name: "Price", Kind: dsl.Scalar, Type: "u64", Doc: "price"}, {Name: "Sym", Kind: dsl.FixStr, Type: "char", N: 4, Doc: "symbol"}}}}
+		}
+		d1 := &dsl.Program{Name: "D/options-only", Opts: dsl.TargetOpts("gdoptionsonly")}
+		d2 := &dsl.Program{Name: "D/metadata-only", Opts: dsl.TargetOpts("gdmetadataonly"), Meta: meta()}
+		d3 := &dsl.Program{Name: "D/empty-root-packet", Opts: dsl.TargetOpts("gdemptyroot"), Packets: []*dsl.Packet{dsl.Root("Msg")}}
+		d4 := &dsl.Program{Name: "D/nothing", NoOpts: true}
+		sel = append(sel, d1, d2, d3, d4)
+	}
 	var runs, straced int64
 	var jobs []struct {
 		p    *dsl.Program
